@@ -1,3 +1,10 @@
+import Driver.C17
+import Driver.C15
+import Driver.C12
+import Driver.C09
+import Driver.C08
+import Driver.C07
+import Driver.C03
 import Driver.C05
 import Driver.C04
 import Driver.C19
@@ -27,4 +34,11 @@ def main (args : List String) : IO UInt32 := do
   | ["C19"] => Driver.C19.main; return 0
   | ["C04"] => Driver.C04.main; return 0
   | ["C05"] => Driver.C05.main; return 0
+  | ["C03"] => Driver.C03.main; return 0
+  | ["C07"] => Driver.C07.main; return 0
+  | ["C08"] => Driver.C08.main; return 0
+  | ["C09"] => Driver.C09.main; return 0
+  | ["C12"] => Driver.C12.main; return 0
+  | ["C15"] => Driver.C15.main; return 0
+  | ["C17"] => Driver.C17.main; return 0
   | _ => IO.eprintln "usage: stirdriver <C01..C20>"; return 2
